@@ -577,6 +577,62 @@ def scalar_boundary_reassign_cases(ctx, cuqi, state, cases, stats):
             cases[-1].meta["reassigned_from"] = Pold
 
 
+def sib_parent(cuqi, fam, P, n, nm, style):
+    """conditional distribution: parameter `nm` left open (None) or given as a callable of a conditioning variable"""
+    names = FAMILIES[fam][0]
+    vals = {k: (float(P[k][0]) if len(P[k]) == 1 else np.array(P[k], dtype=float)) for k in names}
+    if fam == "Lognormal":
+        vals["mean"] = np.array(bc(P["mean"], n), dtype=float)
+    vals[nm] = None if style == "none" else (lambda par_: par_)
+    if fam == "Lognormal":
+        return cuqi.distribution.Lognormal(vals["mean"], vals["cov"])
+    return getattr(cuqi.distribution, fam)(**vals, geometry=n)
+
+
+def sib_condition(parent, fam, nm, style, value, n):
+    v = float(value[0]) if len(value) == 1 and not (fam == "Lognormal" and nm == "mean") else np.array(bc(value, n) if (fam == "Lognormal" and nm == "mean") else value, dtype=float)
+    return parent(**{nm: v}) if style == "none" else parent(par_=v)
+
+
+def scalar_sibling_cases(ctx, cuqi, state, cases, stats):
+    """BRANCHING conditioning histories: several instances conditioned from ONE conditional distribution are alive together and are
+    evaluated only after their later siblings were created (and again after those were evaluated): each must keep the density
+    of the parameters IT was conditioned on.  Every family x every parameter x {left open, callable}."""
+    rng = ctx.rng
+    counter = 0
+    for fam, (names, positive, scalar_only) in FAMILIES.items():
+        if fam == "ModifiedHalfNormal":
+            continue                    # its parameters are not conditionable (plain attributes)
+        for nm in names:
+            for n in ((3,) if not ctx.thorough else (1, 3)):
+                counter += 1
+                style = ["none", "callable"][counter % 2]
+                forms = "".join("S" if (k in scalar_only or (n == 1) or (counter % 3 == 0 and k != "mean")) else "V" for k in names)
+                if fam == "Lognormal":
+                    forms = "V" + forms[1:]
+                base = draw_params(rng, fam, forms, n)
+                Ps = []
+                for k in range(3):
+                    Pk = {q: list(v) for q, v in base.items()}
+                    if fam == "Uniform":
+                        shift = (k + 1) * rng.randint(1, 4) / 8
+                        Pk[nm] = [v - shift for v in base[nm]] if nm == "low" else [v + shift for v in base[nm]]
+                    else:
+                        while True:
+                            cand = draw_params(rng, fam, forms, n)[nm]
+                            if cand != base[nm] and all(cand != q[nm] for q in Ps):
+                                break
+                        Pk[nm] = cand
+                    Ps.append(Pk)
+                parent = sib_parent(cuqi, fam, base, n, nm, style)
+                sibs = [sib_condition(parent, fam, nm, style, Pk[nm], n) for Pk in Ps]          # all created before any evaluation
+                for pos, (k, method) in enumerate([(1, "logpdf"), (0, "logpdf"), (2, "logd"), (0, "pdf"), (1, "logpdf")]):
+                    x = draw_x(rng, fam, Ps[k], n, True)
+                    one_scalar_case(ctx, cuqi, state, cases, stats, fam, Ps[k], x, n, forms, "direct", ["array"] * len(names), method, sibs[k], None,
+                                    cell_suffix="/sibling-of-conditional/%s-%s" % (nm, style))
+                    cases[-1].meta["siblings"] = {"param": nm, "style": style, "values": [Pk[nm] for Pk in Ps], "index": k, "position": pos}
+
+
 def scalar_oracle(fam, P, x, n, method, obs, forms):
     """the property itself on the implementation: observed value vs the logarithm of the documented density"""
     doc = doc_logpdf(fam, P, x)
@@ -598,6 +654,12 @@ def scalar_oracle(fam, P, x, n, method, obs, forms):
 
 
 def scalar_observe(cuqi, meta):
+    if "siblings" in meta:
+        sb = meta["siblings"]
+        parent = sib_parent(cuqi, meta["family"], meta["params"], meta["dim"], sb["param"], sb["style"])
+        sibs = [sib_condition(parent, meta["family"], sb["param"], sb["style"], v, meta["dim"]) for v in sb["values"]]
+        obs = evaluate(sibs[sb["index"]], meta["method"], meta["x"], None)
+        return float(np.asarray(obs).ravel()[0]) if np.size(obs) == 1 else None
     dist, condvals = build_dist(cuqi, meta["family"], meta.get("reassigned_from", meta["params"]), meta["dim"], meta["ifaces"], meta["via"])
     if "reassigned_from" in meta:
         names = FAMILIES[meta["family"]][0]
@@ -2216,6 +2278,7 @@ def run(ctx):
     scalar_cdf_cases(ctx, cuqi, state, cases, stats)
     scalar_falsy_cases(ctx, cuqi, state, cases, stats)
     scalar_boundary_reassign_cases(ctx, cuqi, state, cases, stats)
+    scalar_sibling_cases(ctx, cuqi, state, cases, stats)
     # spread the expensive cases (76 x 76 exact determinants) over the shards so that they are evaluated in parallel
     heavy = [c for c in cases if "/densefull/dim" in c.cell]
     light = [c for c in cases if "/densefull/dim" not in c.cell]
